@@ -45,6 +45,33 @@ Definition run_spec_list_unary (fo : float_oracle) (defs : listdefs) (op : nop) 
   | _ => T "no-spec"
   end.
 
+(* list + int / list - int: the declarations are those of the story *)
+Definition run_spec_list_increment (fo : float_oracle) (defs : listdefs) (op : nop) (a n : obj) : text :=
+  match a, n with
+  | OVal (VList l), OVal (VInt z) => render_sres fo (spec_list_increment defs op (abs l) z)
+  | _, _ => T "no-spec"
+  end.
+
+(* LIST_RANGE(list, lo, hi) with int or list bounds *)
+Definition bound_of (o : obj) : option sbound :=
+  match o with
+  | OVal (VInt z) => Some (BInt z)
+  | OVal (VList l) => Some (BList (abs l))
+  | _ => None
+  end.
+Definition run_spec_list_range (fo : float_oracle) (t lo hi : obj) : text :=
+  match t, bound_of lo, bound_of hi with
+  | OVal (VList l), Some a, Some b => render_sres fo (spec_list_range (abs l) a b)
+  | _, _, _ => T "no-spec"
+  end.
+
+(* ListName(n) *)
+Definition run_spec_list_from_int (fo : float_oracle) (defs : listdefs) (name n : obj) : text :=
+  match name, n with
+  | OVal (VString s), OVal (VInt z) => render_sres fo (spec_list_from_int defs s z)
+  | _, _ => T "no-spec"
+  end.
+
 (* ---------- source-level expressions (the compile + play stream) ---------- *)
 Inductive expr :=
 | ELit (v : sval)
